@@ -106,7 +106,7 @@ def apalache_obs(ctx, verdict, name, exprs, cases, sigs, pipe_name, group=20, pe
                   "Next == UNCHANGED bad", "Ok == bad = {}", "===="]
         return vlib.apalache(ctx, "\n".join(lines), mod, timeout=timeout, extra_files={"ExactGeom.tla": spec})
     failing = set()
-    with ThreadPoolExecutor(max_workers=min(8, len(chunks) or 1)) as ex:
+    with ThreadPoolExecutor(max_workers=min(8 if ctx.quick else 5, len(chunks) or 1)) as ex:
         for bad in ex.map(one, list(enumerate(chunks))):
             failing |= bad
     ctx.validated += len(exprs)
